@@ -12,6 +12,7 @@ import (
 	"errors"
 	"fmt"
 	"os"
+	"path/filepath"
 	"sort"
 	"strconv"
 	"strings"
@@ -717,7 +718,21 @@ func (r *seqRun) execSimple(t []string) {
 		r.emit("op %s => %d %d %d %d %d %d", name, s.Hits, s.Misses, s.LoadSuccesses, s.LoadFailures, s.Evictions, s.EvictionWeight)
 	case "save":
 		var buf bytes.Buffer
-		err := otter.SaveCacheTo(c, &buf)
+		var err error
+		if atoi(t[1])%2 == 1 {
+			// odd slots go through the file variants (into a directory that does not exist yet)
+			dir, derr := os.MkdirTemp("", "verifh-persist")
+			if derr != nil {
+				panic(derr)
+			}
+			path := filepath.Join(dir, "a", "b", "cache.gob")
+			err = otter.SaveCacheToFile(c, path)
+			data, _ := os.ReadFile(path)
+			buf.Write(data)
+			os.RemoveAll(dir)
+		} else {
+			err = otter.SaveCacheTo(c, &buf)
+		}
 		if r.slots == nil {
 			r.slots = map[int][]byte{}
 		}
@@ -739,7 +754,21 @@ func (r *seqRun) execSimple(t []string) {
 	case "loadfrom":
 		// loadfrom <slot> <max|same>: a fresh cache of the same configuration (optionally another maximum)
 		target := otter.Must(r.options(false, t[2]))
-		err := otter.LoadCacheFrom(target, bytes.NewReader(r.slots[atoi(t[1])]))
+		var err error
+		if atoi(t[1])%2 == 1 {
+			dir, derr := os.MkdirTemp("", "verifh-persist")
+			if derr != nil {
+				panic(derr)
+			}
+			path := filepath.Join(dir, "cache.gob")
+			if werr := os.WriteFile(path, r.slots[atoi(t[1])], 0o600); werr != nil {
+				panic(werr)
+			}
+			err = otter.LoadCacheFromFile(target, path)
+			os.RemoveAll(dir)
+		} else {
+			err = otter.LoadCacheFrom(target, bytes.NewReader(r.slots[atoi(t[1])]))
+		}
 		target.CleanUp()
 		var parts []string
 		keys := []int{}
